@@ -130,8 +130,10 @@ def _union_misdispatch(T, v, out):
     elif tag in ("dict", "mapping", "mmapping", "odict", "ddict", "mproxy") and isinstance(v[1], list):
         for kv in v[1]:
             _union_misdispatch(T[2], kv[1], out)
-    elif tag in ("newtype", "fwd", "tvarc", "tvarb"):
+    elif tag in ("newtype", "fwd", "tvarc", "tvarb", "alias695"):
         _union_misdispatch(T[2], v, out)
+    elif tag == "stype" and v[0] == "sobj":
+        _union_misdispatch(T[2], v[2], out)
     elif tag == "tdict" and v[0] == "dict":
         have = {kv[0][1]: kv[1] for kv in v[1] if kv[0][0] == "str"}
         for f in T[2]:
